@@ -71,7 +71,7 @@ class Ctx(object):
                         walk(v)
             walk(self.inputs)
             self._rankmap = dict((v, "k%03d" % i) for i, v in enumerate(sorted(vals)))
-        return self._rankmap[r]
+        return self._rankmap.get(r, 'u%d' % r)
 
     def choice(self, name, n):
         """symbolic integer in range(n), decided by forking (returns a concrete python int)"""
